@@ -7,6 +7,7 @@ import (
 	"bytes"
 	"fmt"
 	"os"
+	"reflect"
 	"strings"
 	"sync"
 	"testing"
@@ -15,6 +16,7 @@ import (
 	"github.com/veraison/psatoken/encoding"
 	"pgregory.net/rapid"
 
+	"verifharness/icbor"
 	"verifharness/icose"
 )
 
@@ -29,11 +31,39 @@ type c17Pool struct {
 	names   []string
 	keys    []keyPair
 	shapes  []shape
+	extCBOR [][]byte // tokens of the registered extension profile (CBOR dispatch)
+	extJSON [][]byte
+	bad     [][]byte     // inputs every decoder rejects (after having started)
+	synth   reflect.Type // a struct type no codec has seen before this program
 }
 
 type c17Spec struct {
 	Models []*MClaims
 	Algs   []int64
+	Synth  int // serial number of the program: makes its synthetic struct type unique
+}
+
+func c17SynthType(serial int) reflect.Type {
+	var fs []reflect.StructField
+	for i := 0; i < 12; i++ {
+		fs = append(fs, reflect.StructField{
+			Name: fmt.Sprintf("F%d_%d", serial, i),
+			Type: reflect.TypeOf((*int64)(nil)),
+			Tag:  reflect.StructTag(fmt.Sprintf(`cbor:"%d,keyasint,omitempty" json:"f%d_%d,omitempty"`, i+1, serial, i)),
+		})
+	}
+	return reflect.StructOf(fs)
+}
+
+func c17SynthValue(typ reflect.Type, seed int) reflect.Value {
+	v := reflect.New(typ)
+	for i := 0; i < typ.NumField(); i++ {
+		if (seed>>uint(i%8))&1 == 0 {
+			x := int64(seed*31 + i)
+			v.Elem().Field(i).Set(reflect.ValueOf(&x))
+		}
+	}
+	return v
 }
 
 // buildPool is a pure function of the spec (so that the sequential reference
@@ -92,6 +122,31 @@ func buildPool(sp c17Spec) (*c17Pool, error) {
 	if len(p.claims) == 0 || len(p.evs) == 0 || len(p.jsonBuf) == 0 {
 		return nil, fmt.Errorf("pool too small")
 	}
+	// extension-profile tokens and inputs that fail inside the helpers
+	for i, m := range sp.Models {
+		if !m.Valid() || m.Prof != P2 {
+			continue
+		}
+		mm := m.Clone()
+		ts := int64(i)
+		if c, err := buildExt(mm, &ts); err == nil {
+			if b, err := psatoken.EncodeClaimsToCBOR(c); err == nil {
+				p.extCBOR = append(p.extCBOR, b)
+				if n, _, rerr := icbor.Read(b); rerr == nil && len(n.Pairs) > 1 {
+					dup := icbor.Map(append(append([][2]*icbor.Node{}, n.Pairs...), n.Pairs[0])...)
+					txt := icbor.Map(append(append([][2]*icbor.Node{}, n.Pairs...), icbor.P(icbor.Tstr("k"), icbor.U(1)))...)
+					p.bad = append(p.bad, icbor.Encode(dup), icbor.Encode(txt), icbor.Encode(icbor.Tag(6, icbor.Tag(6, n))), b[:len(b)/2])
+				}
+			}
+			if b, err := psatoken.EncodeClaimsToJSON(c); err == nil {
+				p.extJSON = append(p.extJSON, b)
+			}
+		}
+	}
+	if len(p.extCBOR) == 0 || len(p.bad) == 0 {
+		return nil, fmt.Errorf("pool has no extension tokens")
+	}
+	p.synth = c17SynthType(sp.Synth)
 	i7, s := int64(7), "s"
 	bs := []byte{1, 2}
 	p.shapes = []shape{&ShapeFlat{A: &i7, B: &s, C: &bs, D: 3, E: "e"}, &ShapeOuter2{R: 1, ShapeMid: ShapeMid{ShapeInner: ShapeInner{X: &i7, Y: "y"}}, S: &s}}
@@ -105,7 +160,7 @@ type c17Op struct {
 	A, B int
 }
 
-var c17Kinds = []string{"new", "dec-cbor", "dec-json", "dec-cose", "validate", "getter", "getters", "enc-cbor", "enc-json", "venc-cbor", "venc-json",
+var c17Kinds = []string{"ext-dec-cbor", "ext-dec-json", "ext-bad", "ext-bad", "synth", "synth", "new", "dec-cbor", "dec-json", "dec-cose", "validate", "getter", "getters", "enc-cbor", "enc-json", "venc-cbor", "venc-json",
 	"ev-json", "ev-verify", "ev-ids", "sign", "vsign", "setters", "serialize", "populate"}
 
 func idx(n, k int) int { return ((k % n) + n) % n }
@@ -113,6 +168,36 @@ func idx(n, k int) int { return ((k % n) + n) % n }
 // runOp executes one operation against the pool and renders its result.
 func runOp(p *c17Pool, o c17Op) string {
 	switch o.Kind {
+	case "ext-dec-cbor":
+		c, err := psatoken.DecodeClaimsFromCBOR(p.extCBOR[idx(len(p.extCBOR), o.A)])
+		if err != nil {
+			return "err:" + err.Error()
+		}
+		b, _ := psatoken.EncodeClaimsToCBOR(c)
+		return fmt.Sprintf("%T/%s/%v/%x", c, ObserveGetters(c), fmtI64(extTimestamp(c)), b)
+	case "ext-dec-json":
+		c, err := psatoken.DecodeClaimsFromJSON(p.extJSON[idx(len(p.extJSON), o.A)])
+		if err != nil {
+			return "err:" + err.Error()
+		}
+		b, _ := psatoken.EncodeClaimsToJSON(c)
+		return fmt.Sprintf("%T/%s/%v/%s", c, ObserveGetters(c), fmtI64(extTimestamp(c)), b)
+	case "ext-bad":
+		// a decode that fails inside the embedding-aware helpers
+		in := p.bad[idx(len(p.bad), o.A)]
+		_, err1 := psatoken.DecodeClaimsFromCBOR(in)
+		err2 := newExtP2Claims().(*ExtP2Claims).UnmarshalCBOR(in)
+		err3 := encoding.PopulateStructFromJSON([]byte(`{"a":1,"a":2,"c":null`), &ShapeFlat{})
+		return fmt.Sprintf("%v/%v/%v", err1 != nil, err2 != nil, err3 != nil)
+	case "synth":
+		// a struct type that no codec has seen before this program
+		v := c17SynthValue(p.synth, o.A*16+o.B)
+		b1, e1 := encoding.SerializeStructToCBOR(hem, v.Interface())
+		b2, e2 := encoding.SerializeStructToJSON(v.Interface())
+		d1, d2 := reflect.New(p.synth), reflect.New(p.synth)
+		e3 := encoding.PopulateStructFromCBOR(hdm, b1, d1.Interface())
+		e4 := encoding.PopulateStructFromJSON(b2, d2.Interface())
+		return fmt.Sprintf("%x/%s/%v%v%v%v/%v/%v", b1, b2, e1 != nil, e2 != nil, e3 != nil, e4 != nil, reflect.DeepEqual(d1.Interface(), v.Interface()), reflect.DeepEqual(d2.Interface(), v.Interface()))
 	case "new":
 		c, err := psatoken.NewClaims(p.names[idx(len(p.names), o.A)])
 		if err != nil {
@@ -242,8 +327,10 @@ func raceLogSize() int64 {
 	return fi.Size()
 }
 
+var progSerial int
+
 func TestC17_Concurrent(t *testing.T) {
-	st := NewStats("C17", "TestC17_Concurrent", "rapid draws a PROGRAM: a pool of shared objects (3..8 claims-sets of both profiles and both extension profiles, valid and invalid, built as literals / decoded / extension instances; decoded Evidence; CBOR, JSON and COSE byte buffers; keys of 4 algorithms) and 16..48 goroutine scripts of 10..60 operations each from {NewClaims, decode CBOR/JSON/COSE(+Verify), Validate, single getter, all getters, encode and validate-and-encode CBOR/JSON on SHARED claims, MarshalJSON / Verify / Get*ID on SHARED Evidence, Sign / ValidateAndSign on a private Evidence holding SHARED claims, setter sequences on private objects, embedding-aware serialise / populate}. The scripts start together behind a barrier (GOMAXPROCS=16) in a binary built with -race. Oracle: (1) no race-detector report (the detector's log file is inspected after every program), (2) every operation's rendered result equals that of the same script run sequentially on a fresh copy of the pool (for signing: payload equals the encoding, token verifies independently and on the signing Evidence). Non-trivial = at least two goroutines used the same shared object; distinct = program hash. Sampling of schedules, not enumeration")
+	st := NewStats("C17", "TestC17_Concurrent", "rapid draws a PROGRAM: a pool of shared objects (3..8 claims-sets of both profiles and both extension profiles, valid and invalid, built as literals / decoded / extension instances; decoded Evidence; CBOR, JSON and COSE byte buffers; keys of 4 algorithms) and 16..48 goroutine scripts of 10..60 operations each from {NewClaims, decode CBOR/JSON/COSE(+Verify), Validate, single getter, all getters, encode and validate-and-encode CBOR/JSON on SHARED claims, MarshalJSON / Verify / Get*ID on SHARED Evidence, Sign / ValidateAndSign on a private Evidence holding SHARED claims, setter sequences on private objects, embedding-aware serialise / populate, decoding of extension-profile tokens (CBOR and JSON dispatch), decodes that FAIL inside the embedding-aware helpers (duplicate key, text key, nested tags, truncation), and serialise+populate of a synthetic struct type that no codec has seen before this program}. The concurrent run comes first (cold per-type / per-process caches), the sequential reference on a fresh pool last. The scripts start together behind a barrier (GOMAXPROCS=16) in a binary built with -race. Oracle: (1) no race-detector report (the detector's log file is inspected after every program), (2) every operation's rendered result equals that of the same script run sequentially on a fresh copy of the pool (for signing: payload equals the encoding, token verifies independently and on the signing Evidence). Non-trivial = at least two goroutines used the same shared object; distinct = program hash. Sampling of schedules, not enumeration")
 	st.Require = []string{"shared-claims-contended", "shared-evidence-contended"}
 	defer st.Flush(t)
 	if !raceEnabled {
@@ -260,6 +347,9 @@ func TestC17_Concurrent(t *testing.T) {
 			nm := rapid.IntRange(3, 8).Draw(t, "nmodels")
 			for i := 0; i < nm; i++ {
 				p := drawProf(t)
+				if i == 0 {
+					p = P2 // the pool needs tokens of the extension profile
+				}
 				if i < 2 || genBool.Draw(t, "valid") {
 					sp.Models = append(sp.Models, GenValid(t, p, false))
 				} else {
@@ -280,7 +370,42 @@ func TestC17_Concurrent(t *testing.T) {
 					scripts[g] = append(scripts[g], c17Op{k, rapid.IntRange(0, 7).Draw(t, "a"), rapid.IntRange(0, 9).Draw(t, "b")})
 				}
 			}
-			// sequential reference on a fresh pool
+			progSerial++
+			sp.Synth = progSerial*1000 + os.Getpid()%1000
+			// The concurrent runs come FIRST (so that whatever the library
+			// caches per type or per process is cold when goroutines race for
+			// it); the sequential reference on a fresh pool is computed last.
+			got := make([][][]string, reps)
+			for rep := 0; rep < reps; rep++ {
+				if rep > 0 {
+					progSerial++
+					sp.Synth = progSerial*1000 + os.Getpid()%1000
+				}
+				pool, err := buildPool(sp)
+				if err != nil {
+					t.Fatalf("VERIF-INFRA: %v", err)
+				}
+				before := raceLogSize()
+				got[rep] = make([][]string, G)
+				var wg sync.WaitGroup
+				start := make(chan struct{})
+				for g := range scripts {
+					g := g
+					wg.Add(1)
+					go func() {
+						defer wg.Done()
+						<-start
+						for _, o := range scripts[g] {
+							got[rep][g] = append(got[rep][g], runOp(pool, o))
+						}
+					}()
+				}
+				close(start)
+				wg.Wait()
+				if after := raceLogSize(); after != before {
+					t.Fatalf("C17 violated: the race detector reported a data race while %d goroutines ran read-side operations (report in %s.%d)", G, os.Getenv("VERIF_RACELOG"), os.Getpid())
+				}
+			}
 			ref, err := buildPool(sp)
 			if err != nil {
 				t.Fatalf("VERIF-INFRA: %v", err)
@@ -292,34 +417,14 @@ func TestC17_Concurrent(t *testing.T) {
 				}
 			}
 			for rep := 0; rep < reps; rep++ {
-				pool, err := buildPool(sp)
-				if err != nil {
-					t.Fatalf("VERIF-INFRA: %v", err)
-				}
-				before := raceLogSize()
-				got := make([][]string, G)
-				var wg sync.WaitGroup
-				start := make(chan struct{})
-				for g := range scripts {
-					g := g
-					wg.Add(1)
-					go func() {
-						defer wg.Done()
-						<-start
-						for _, o := range scripts[g] {
-							got[g] = append(got[g], runOp(pool, o))
-						}
-					}()
-				}
-				close(start)
-				wg.Wait()
-				if after := raceLogSize(); after != before {
-					t.Fatalf("C17 violated: the race detector reported a data race while %d goroutines ran read-side operations (report in %s.%d)", G, os.Getenv("VERIF_RACELOG"), os.Getpid())
-				}
 				for g := range scripts {
 					for i := range scripts[g] {
-						if got[g][i] != want[g][i] {
-							t.Fatalf("C17 violated: goroutine %d op %d (%+v) returned a different result when run concurrently:\n  concurrent: %s\n  sequential: %s", g, i, scripts[g][i], truncate(got[g][i], 300), truncate(want[g][i], 300))
+						gv, wv := got[rep][g][i], want[g][i]
+						if scripts[g][i].Kind == "synth" && rep != reps-1 {
+							continue // synthetic types differ between repetitions
+						}
+						if gv != wv {
+							t.Fatalf("C17 violated: goroutine %d op %d (%+v) returned a different result when run concurrently:\n  concurrent: %s\n  sequential: %s", g, i, scripts[g][i], truncate(gv, 300), truncate(wv, 300))
 						}
 					}
 				}
